@@ -231,6 +231,8 @@ def items(tier):
         prog, argsl, _t = FAMILY[pname]
         k = len(R.leaf_paths(prog))
         nch = 1 if k <= 2 else 2 if k == 3 else 4
+        if tier == "thorough":
+            nch *= 4  # hundreds of selection shapes per program: finer items keep 16 workers busy to the end
         for c in range(nch):
             its.append((pname, c, nch))
     return its
